@@ -44,6 +44,13 @@ def gen_cases(ctx, n, maxsize):
             kind = "splitlong" if i % 60 == 17 else "splitraw"
             x = getattr(datagen, kind)(rng, rng.choice([2, 3])); api = "c2"; p = {100: rng.choice([16, 17, 18, 19])}
             if rng.random() < 0.25: p[201] = 1
+        if i % 60 in (35, 47, 55):
+            # > 64 KiB of Huffman-compressed literals and only a handful of sequences in the LAST block of an exactly sized destination:
+            # the literal buffer is split and the hand-over to the side buffer happens in the drain loop of the prefetching decoder
+            kind = "longlits2"
+            x = datagen.longlits2(rng, rng.choice([0, 131072]) + rng.randint(70000, 131072)); api = "c2"
+            p = {100: rng.choice([1, 2, 3, 4, 5, 7])}
+            if rng.random() < 0.3: p[201] = 1
         d = b""
         if api in ("udict", "ucdict") or (api in ("c2", "adv") and rng.random() < 0.15):
             d = datagen.gen(rng, 8000)[1] + x[: rng.randint(0, min(len(x), 2000))]
